@@ -49,6 +49,9 @@ def is_single_peaked_axis(instance, axis):
         for pos in positions:
             # If pos = 0, we are at the peak
             if pos == 0:
+                # coming back to the top class after having left it: the plateau is split
+                if peak_passed and previous_position != 0:
+                    return False
                 peak_passed = True
             else:
                 if previous_position is not None:
